@@ -458,6 +458,38 @@ func Check(id, tier string) int {
 		}
 	}
 
+	// thorough tier: the must-fail corpus of this property (deliberately property-breaking patches applied to a
+	// scratch worktree; each must make this very check report a VIOLATION) and a re-run of every recorded
+	// known-finding witness on the real code (it must still fail, otherwise the finding is stale)
+	var thoroughNotes []string
+	if tier == "thorough" && os.Getenv("GOVC_REPO") == "" {
+		if ms, _ := filepath.Glob(filepath.Join(verifDir, "selftest", id, "*.patch")); len(ms) > 0 {
+			cmd := exec.Command(filepath.Join(verifDir, "selftest.sh"), id)
+			cmd.Dir = verifDir
+			out, _ := cmd.CombinedOutput()
+			caught, missed := 0, 0
+			for _, l := range strings.Split(string(out), "\n") {
+				if strings.HasPrefix(l, "SELFTEST ") {
+					if strings.Contains(l, ": caught") {
+						caught++
+					} else {
+						missed++
+						res.engineErrors = append(res.engineErrors, "must-fail corpus: "+l)
+					}
+				}
+			}
+			thoroughNotes = append(thoroughNotes, fmt.Sprintf("must-fail corpus selftest/%s: %d mutations, %d caught, %d missed", id, caught+missed, caught, missed))
+		}
+		for i := range known.Findings {
+			k := &known.Findings[i]
+			if k.Property != id || k.Witness == "" || k.WitnessPkg == "" {
+				continue
+			}
+			st := runWitness(k)
+			thoroughNotes = append(thoroughNotes, fmt.Sprintf("known finding witness %s: %s", k.Witness, st))
+		}
+	}
+
 	sort.Strings(res.funcs)
 	res.funcs = uniq(res.funcs)
 	sort.Strings(res.abstractions)
@@ -493,6 +525,7 @@ func Check(id, tier string) int {
 		"lean":                              leanNotes,
 		"engine_errors":                     res.engineErrors,
 		"technique":                         cfg.Technique,
+		"thorough_tier":                     thoroughNotes,
 	}
 	if len(samples) == 0 {
 		// every obligation was decided without an SMT query (static effect analysis / syntactically true): show those
@@ -677,4 +710,39 @@ func (e *Engine) discharge(workdir string, timeout int) {
 		}(i, o)
 	}
 	wg.Wait()
+}
+
+// runWitness copies a recorded witness test next to its package in a scratch worktree of /repo HEAD, runs it and
+// reports whether it still fails (the defect is still present) - never touches /repo itself.
+func runWitness(k *KnownFinding) string {
+	wt := fmt.Sprintf("/tmp/wt/witness-%d", os.Getpid())
+	if out, err := exec.Command("git", "-C", repoDir, "worktree", "add", "-q", "--detach", wt, "HEAD").CombinedOutput(); err != nil {
+		return "could not create scratch worktree: " + firstLines(string(out), 2)
+	}
+	defer exec.Command("git", "-C", repoDir, "worktree", "remove", "--force", wt).Run()
+	src, err := os.ReadFile(filepath.Join(verifDir, k.Witness))
+	if err != nil {
+		return "witness file missing"
+	}
+	mod := filepath.Join(wt, k.WitnessMod)
+	dst := filepath.Join(wt, k.WitnessMod, k.WitnessPkg, "zz_verif_witness_test.go")
+	if strings.HasPrefix(k.WitnessPkg, k.WitnessMod) && k.WitnessMod != "." {
+		dst = filepath.Join(wt, k.WitnessPkg, "zz_verif_witness_test.go")
+	}
+	if err := os.WriteFile(dst, src, 0o644); err != nil {
+		return "cannot place witness: " + err.Error()
+	}
+	rel := "./" + strings.TrimPrefix(strings.TrimPrefix(filepath.Dir(dst), mod), "/")
+	cmd := exec.Command("go", "test", "-vet=off", "-count=1", "-timeout", "600s", "-run", k.WitnessRun, rel)
+	cmd.Dir = mod
+	out, err := cmd.CombinedOutput()
+	switch {
+	case err != nil && bytes.Contains(out, []byte("--- FAIL")):
+		return "still fails on the real code (finding confirmed)"
+	case err == nil && bytes.Contains(out, []byte("--- SKIP")):
+		return "skipped (the window did not occur in this run)"
+	case err == nil:
+		return "passes now: the recorded finding is stale"
+	}
+	return "could not run: " + firstLines(string(out), 3)
 }
